@@ -473,7 +473,7 @@ func TestVerifC16(t *testing.T) {
 	rec.Rule(fmt.Sprintf("universe U = OS %q × arch %q × variant %q × os.version %q = %d raw platforms (+ the macos alias = %d), %d after the documented alias table, plus entries without a platform. "+
 		"(a) for EVERY requested platform h ∈ U (canonical) and every alias spelling of h: real Compatible(h,t) for every t ∈ U against two independent tables; the real Better on all pairs and all triples of compat(h) (irreflexive, asymmetric, transitive; beats-nothing; incompatible never ranks; independent preference table); alias entries against their canonical value. "+
 		"(b) for every h ∈ U, pool(h) = {t ∈ U possibly runnable or Compatible} ∪ ≤3 incompatible witnesses ∪ {entry without platform}: every ordered list with repetition (= every permutation of every multiset) of length ≤ %d through descriptor.DescriptorListSearch; length ≤ %d for h in the core sub-universe (os.version ∈ {none, 10.0.17763.1}, variant ∈ {none,v3,v7,5}; every OS and architecture; pool unrestricted); length ≤ %d for h and pool in the mini sub-universe (no freebsd; arch amd64/arm/arm64; variant ∈ {none,v2,v3,v6,v7,v9}; os.version ∈ {none,10.0.17763.1}); "+
-		"manifest.GetPlatformDesc on an OCI index and on a Docker manifest list for every list of length ≤ %d for every h and ≤ %d for core h; RegClient.ManifestGet(WithManifestPlatform) over HTTP against an in-memory registry for every list of length ≤ %d with h and pool in the mini sub-universe. "+
+		"manifest.GetPlatformDesc on an OCI index and on a Docker manifest list for every list of length ≤ %d for every h and ≤ %d for core h; RegClient.ManifestGet and ManifestHead (WithManifestPlatform) over HTTP against an in-memory registry, on the index itself and on an outer index whose single entry (carrying exactly h) names it, for every list of length ≤ %d with h and pool in the mini sub-universe. "+
 		"(c) every platform string os[/arch[/variant]][,osver=…] and arch-only string built from U's components (plus upper-case spellings, macos, local). "+
 		"evaluations = judged cases (pairs for the table clauses, triples for the order laws, lists for (b), strings for (c)); distinct_nontrivial = distinct (requested platform, list) cases whose list holds at least two different entries the host can run (so that the choice between them is exercised) plus distinct requested platforms with ≥ 2 compatible entries in (a) plus distinct accepted platform strings in (c)",
 		uOS, uArch, uVariant, uOSVer, len(rawUniverse(false)), len(raws), len(U), lenAll, lenCore, lenMini, descAll, descCore, getLen))
